@@ -102,9 +102,17 @@ func c07AggregateBest(n, levels int) {
 	vnd.Assert(chosen != nil && chosen.outcome == oValid, "C07.aggregate.answer-is-a-valid-response")
 	vnd.Assert(chosen.latency <= elapsed, "C07.aggregate.answer-arrived-before-return")
 	cs := chosen.data.AggregationBits.Count()
+	exact := true
+	for i, p := range provs {
+		exact = vnd.And(exact, vnd.And(p.latency != timeout/2, p.latency != timeout))
+		for j := 0; j < i; j++ {
+			exact = vnd.And(exact, p.latency != provs[j].latency)
+		}
+	}
 	for _, p := range provs {
 		if p.outcome == oValid && p != chosen {
 			vnd.Assert(vnd.Implies(p.latency < elapsed, p.data.AggregationBits.Count() <= cs), "C07.aggregate.most-complete-among-responses-received")
+			vnd.Assert(vnd.Implies(vnd.And(exact, p.latency <= elapsed), p.data.AggregationBits.Count() <= cs), "C07.aggregate.most-complete-among-responses-received-exact")
 		}
 	}
 }
